@@ -669,7 +669,7 @@ theorem header_absent {h : Dic} {name : Bytes} (hh : hasHeader h name = false) :
 /-- `readBody` on a chunk-framed body followed by the final chunk: the parts' data, the connection just after -/
 theorem readBody_chunked (blk rblk : Nat) (hb : 0 < blk) (hb2 : blk < 2147483648) (hr : 0 < rblk) (h : Dic) (parts : List Bytes)
     (rest : Bytes) (i : Inp) (hi : Live i)
-    (hcl : hasHeader h sContentLength = false) (hte : header h sTransferEncoding = sChunked)
+    (hcl : hasHeader h sContentLength = false) (hte : teChunked (header h sTransferEncoding) = true)
     (hd : i.data = (parts.map (writeBody true blk)).flatten ++ lastChunk ++ rest) :
     readBodyWith rblk h i = (parts.flatten, i.advance (((parts.map (writeBody true blk)).flatten).length + 5)) ∧
       (i.advance (((parts.map (writeBody true blk)).flatten).length + 5)).data = rest := by
@@ -715,7 +715,7 @@ theorem clValid_utoa (n : Nat) (hn : n < 2147483648) : clValid (utoa n) = true :
 /-- `readBody` with `Content-Length: n`: exactly the next `n` bytes, for every fragmentation (`i.cuts` is arbitrary) -/
 theorem readBody_len (rblk : Nat) (hr : 0 < rblk) (h : Dic) (body rest : Bytes) (i : Inp) (hi : Live i)
     (hcl : hasHeader h sContentLength = true) (hv : header h sContentLength = utoa body.length)
-    (hte : header h sTransferEncoding ≠ sChunked) (hfits : body.length < 2147483648)
+    (hte : teChunked (header h sTransferEncoding) = false) (hfits : body.length < 2147483648)
     (hd : i.data = body ++ rest) :
     readBodyWith rblk h i = (body, i.advance body.length) ∧ (i.advance body.length).data = rest := by
   have hval := clValid_utoa body.length hfits
@@ -725,12 +725,13 @@ theorem readBody_len (rblk : Nat) (hr : 0 < rblk) (h : Dic) (body rest : Bytes) 
     · have : body = [] := List.eq_nil_of_length_eq_zero hn
       subst this
       have hu : utoa 0 = [48] := by decide
-      have hte' : (header h sTransferEncoding == sChunked) = false := by simpa using hte
+      have hte' := hte
       have hv0 : clValid [48] = true := by decide
-      simp [hcl, hv, hu, hte', hv0, advance_zero]
+      have ha0 : atoi [48] = 0 := by decide
+      simp [hcl, hv, hu, hte', hv0, ha0, advance_zero]
     · have hne : utoa body.length ≠ [48] := utoa_pos_ne_zero (by omega)
-      have hte' : (header h sTransferEncoding == sChunked) = false := by simpa using hte
-      simp only [hcl, hv, hne, hte', hval, and_false, if_false, if_true, Bool.false_eq_true, not_true_eq_false, false_and, atoi_utoa]
+      have hte' := hte
+      simp only [hcl, hv, hn, hte', hval, and_false, if_false, if_true, Bool.false_eq_true, not_true_eq_false, false_and, atoi_utoa]
       obtain ⟨bl, hbl, heq⟩ := readLenLoop_exact rblk hr (i.data.length + 1) i body.length [] hi
         (by rw [hd]; simp; omega) (by omega) (by rw [hd]; simp)
       rw [heq]
@@ -939,6 +940,9 @@ theorem header_line_parse {n v : Bytes} (hn : WFName n) (hv : WFValue v) :
 /-- a header line fits into `readLine`'s 16001-byte limit -/
 def FitsLine (n v : Bytes) : Prop := n.length + v.length + 3 ≤ 16001
 
+theorem storeHeader_of_value {h : Dic} {n v : Bytes} (hv : v ≠ []) : storeHeader h n v = setHeader h n v := by
+  rw [setHeader_of_value hv]; rfl
+
 theorem readHeaders_step (f : Nat) (i : Inp) (h : Dic) (ln lv n v tail : Bytes) (hi : Live i)
     (hn : WFName n) (hv : WFValue v) (hfit : FitsLine n v)
     (hd : i.data = n ++ [58, 32] ++ v ++ crlf ++ tail) :
@@ -960,7 +964,7 @@ theorem readHeaders_step (f : Nat) (i : Inp) (h : Dic) (ln lv n v tail : Bytes) 
   constructor
   · rw [readHeadersLoop, hrl]
     simp only [p1, if_false, p2, Bool.false_eq_true, p3, p4, p5]
-    rw [hll]
+    rw [hll, storeHeader_of_value hv.1]
   · rw [hll] at hrest; exact hrest
 
 theorem readHeaders_end (f : Nat) (i : Inp) (h : Dic) (ln lv rest : Bytes) (hi : Live i) (hd : i.data = crlf ++ rest) :
@@ -1091,10 +1095,10 @@ def norm (hs : List (Bytes × Bytes)) : Dic := hs.foldl (fun d nv => setHeader d
 /-- how the body follows the header block, as the stored headers `H` announce it: `Framed blk H wire body` -/
 inductive Framed (blk : Nat) (H : Dic) : Bytes → Bytes → Prop
   | len (body : Bytes) : hasHeader H sContentLength = true → header H sContentLength = utoa body.length →
-      header H sTransferEncoding ≠ sChunked → body.length < 2147483648 → Framed blk H body body
-  | chunked (parts : List Bytes) : hasHeader H sContentLength = false → header H sTransferEncoding = sChunked →
+      teChunked (header H sTransferEncoding) = false → body.length < 2147483648 → Framed blk H body body
+  | chunked (parts : List Bytes) : hasHeader H sContentLength = false → teChunked (header H sTransferEncoding) = true →
       Framed blk H ((parts.map (writeBody true blk)).flatten ++ lastChunk) parts.flatten
-  | none : hasHeader H sContentLength = false → header H sTransferEncoding ≠ sChunked → Framed blk H [] []
+  | none : hasHeader H sContentLength = false → teChunked (header H sTransferEncoding) = false → Framed blk H [] []
 
 theorem readBody_framed (blk rblk : Nat) (hb : 0 < blk) (hb2 : blk < 2147483648) (hr : 0 < rblk) (H : Dic) (w body rest : Bytes)
     (hf : Framed blk H w body) (i : Inp) (hi : Live i) (hd : i.data = w ++ rest) :
@@ -1105,7 +1109,7 @@ theorem readBody_framed (blk rblk : Nat) (hb : 0 < blk) (hb2 : blk < 2147483648)
     have := readBody_chunked blk rblk hb hb2 hr H parts rest i hi hcl hte (by rw [hd])
     simpa [lastChunk] using this
   | none hcl hte =>
-    have hte' : (header H sTransferEncoding == sChunked) = false := by simpa using hte
+    have hte' := hte
     constructor
     · unfold readBodyWith; simp [hcl, hte', advance_zero]
     · simpa using hd
@@ -1426,7 +1430,7 @@ theorem stream_framed (blk : Nat) (hs : Dic) (parts : List Bytes) (hwf : WFHeade
     · rcases List.mem_cons.mp h with h | h
       · subst h; exact ⟨by decide, by decide⟩
       · exact ⟨(hwf x (hl2 x h)).2.1.1, (hres x (hl2 x h)).1⟩)
-  exact Framed.chunked parts f2.1 f1.2
+  exact Framed.chunked parts f2.1 (by rw [f1.2]; decide)
 
 
 
@@ -2029,7 +2033,7 @@ theorem readResponse_dict_chunked (proto : Bytes) (code : Nat) (D : Dic) (parts 
   obtain ⟨h1, h2⟩ := header_of_dicGet_none cap_cl hcl
   obtain ⟨h3, _⟩ := header_of_dicGet cap_te hte
   have hfr : Framed sendBlock (norm D) ((parts.map (writeBody true sendBlock)).flatten ++ lastChunk) parts.flatten := by
-    rw [norm_canon hD]; exact Framed.chunked parts h2 h3
+    rw [norm_canon hD]; exact Framed.chunked parts h2 (by rw [h3]; decide)
   obtain ⟨hp0, hpsp, hplen⟩ := proto_ok hp
   have hcm := codeMsg_ok code
   have hwire : i.data = proto ++ [32] ++ utoa code ++ [32] ++ codeMsg code ++ crlf ++ headerLines D ++ crlf ++
@@ -2166,6 +2170,65 @@ theorem readResponse_after_continue (i : Inp) (hi : Live i) (rest : Bytes) (hd :
   rw [hhead]
   simp only []
   rw [skipContinue_final _ _ _ _ _ hc]
+
+
+
+/-! ### headers with an empty value -/
+
+
+theorem trimEnd_sp (s : Bytes) : trimEnd (s ++ [32]) = trimEnd s := by
+  unfold trimEnd
+  rw [List.reverse_append]
+  simp only [List.reverse_cons, List.reverse_nil, List.nil_append, List.singleton_append]
+  rw [List.dropWhile_cons_of_pos (by decide)]
+
+/-- a header line with an empty value (`name: ` CRLF) is stored with the empty value -/
+theorem readHeaders_step_empty (f : Nat) (i : Inp) (h : Dic) (ln lv n tail : Bytes) (hi : Live i)
+    (hn : WFName n) (hfit : n.length + 3 ≤ 16001)
+    (hd : i.data = n ++ [58, 32] ++ crlf ++ tail) :
+    readHeadersLoop (f + 1) i h ln lv = readHeadersLoop f (i.advance (n.length + 4)) (storeHeader h n []) n [] ∧
+    (i.advance (n.length + 4)).data = tail := by
+  obtain ⟨hn0, hnc⟩ := hn
+  obtain ⟨a, n', hna⟩ := List.exists_cons_of_ne_nil hn0
+  have ha := hnc a (by rw [hna]; exact List.mem_cons_self)
+  have hd' : i.data = (n ++ [58, 32, 13]) ++ 10 :: tail := by rw [hd]; simp [crlf]
+  have hnolf : ∀ c ∈ n ++ [58, 32, 13], c ≠ 10 := by
+    intro c hc
+    rcases List.mem_append.mp hc with h1 | h1
+    · exact (cIsSpace_isSpace (hnc c h1).2).2.1
+    · simp only [List.mem_cons, List.not_mem_nil, or_false] at h1
+      rcases h1 with h1 | h1 | h1 <;> subst h1 <;> decide
+  have hll : (n ++ [58, 32, 13]).length + 1 = n.length + 4 := by simp
+  obtain ⟨hrl, hrest⟩ := readLine_line hi _ tail hnolf (by simp; omega) hd'
+  rw [hll] at hrl hrest
+  have htrim : trimmed (n ++ [58, 32, 13]) = n ++ [58] := by
+    unfold trimmed
+    have h1 : trimStart (n ++ [58, 32, 13]) = n ++ [58, 32, 13] := by
+      apply trimStart_id
+      intro c hc
+      rw [hna] at hc
+      simp only [List.cons_append, List.head?_cons, Option.some.injEq] at hc
+      subst hc; exact (cIsSpace_isSpace ha.2).1
+    rw [h1, show n ++ [58, 32, 13] = (n ++ [58, 32]) ++ [13] by simp, trimEnd_cr,
+      show n ++ [58, 32] = (n ++ [58]) ++ [32] by simp, trimEnd_sp]
+    apply trimEnd_id
+    intro c hc
+    rw [getLast?_append_ne (by decide)] at hc
+    simp at hc; subst hc; decide
+  have hne : (n ++ [58, 32, 13]) ≠ [13] := by rw [hna]; simp
+  have hhead : cIsSpace ((n ++ [58, 32, 13]).headD 0) = false := by
+    rw [hna]; simp only [List.cons_append, List.headD_cons]; exact ha.2
+  have hidx : indexOfByte 58 (n ++ [58]) = some n.length := indexOfByte_append 58 n [] (fun x hx => (hnc x hx).1)
+  constructor
+  · rw [readHeadersLoop, hrl]
+    simp only [hne, if_false, hhead, Bool.false_eq_true, htrim, hidx]
+    have h1 : (n ++ [58]).take n.length = n := by simp
+    have h2 : trimmed ((n ++ [58]).drop (n.length + 1)) = [] := by
+      have : (n ++ [58]).drop (n.length + 1) = [] := by
+        rw [show n.length + 1 = (n ++ [58]).length by simp, List.drop_length]
+      rw [this]; rfl
+    rw [h1, h2]
+  · exact hrest
 
 
 end AslProofs.HttpFrame
